@@ -10,6 +10,10 @@ fn main() {
         "C08" => engines::c08::main(&args),
         "C07" => engines::c07::main(&args),
         "C09" => engines::c09::main(&args),
+        "C25" => engines::c25::main(&args),
+        "C10" => engines::c10::main(&args),
+        "C11" => engines::c11::main_c11(&args),
+        "C12" => engines::c11::main_c12(&args),
         other => {
             eprintln!("unknown engine {other}");
             2
